@@ -15,6 +15,8 @@ import (
 func init() {
 	register("C07", "tree-failed-reload-bad-ca", c07Scenario)
 	register("C07", "tree-failed-reload-bad-template", c07Scenario)
+	register("C07", "tree-failed-reload-bad-tracing", c07Scenario)
+	multiplicity["C07/tree-failed-reload-bad-tracing"] = 3
 	multiplicity["C07/tree-failed-reload-bad-ca"] = 3
 	multiplicity["C07/tree-failed-reload-bad-template"] = 3
 }
@@ -52,6 +54,16 @@ func (m refMatcher) holds(ls map[string]string) bool {
 func refRoute(rt Route, ls map[string]string) []string {
 	for _, m := range rt.Matchers {
 		if !parseRefMatcher(m).holds(ls) {
+			return nil
+		}
+	}
+	for n, v := range rt.Match { // deprecated forms: match = equality, match_re = anchored regex; all are conjuncts
+		if !(refMatcher{n, "=", v}).holds(ls) {
+			return nil
+		}
+	}
+	for n, v := range rt.MatchRE {
+		if !(refMatcher{n, "=~", v}).holds(ls) {
 			return nil
 		}
 	}
@@ -108,6 +120,20 @@ func genTree(r *vh.Rand, nrecv int) Route {
 	}
 	root := Route{Receiver: "r0", GroupBy: []string{"id"}, GW: gw, GI: gi, RI: time.Hour}
 	root.Routes = gen(0, "r0")
+	// one route that mixes the deprecated match / match_re with three or more separate matchers entries (the legacy
+	// label sorts before the last new-style matcher): the application builds its tree twice from the same parsed
+	// configuration (dispatcher, API) and both builds must see every conjunct
+	// (the new-style matcher that sorts LAST decides something: b; the legacy label a sorts before it)
+	mix := vh.Pick(r, []Route{
+		{Matchers: []string{`alertname="A"`, `alertname!="B"`, `b="y"`}, Match: map[string]string{"a": "x"}},
+		{Matchers: []string{`alertname=~"A|B"`, `alertname!="C"`, `b=~"x"`}, MatchRE: map[string]string{"a": "x|y"}},
+		{Matchers: []string{`alertname="A"`, `alertname!="B"`, `alertname!="C"`, `alertname=~"A.*"`, `b="x"`}, Match: map[string]string{"a": "y"}},
+		{Matchers: []string{`a=~"x|y"`, `alertname="A"`, `b="y"`}, Match: map[string]string{"a": "x"}},
+	})
+	mix.Receiver = fmt.Sprintf("r%d", r.Intn(nrecv))
+	mix.Continue = r.Bool()
+	at := r.Intn(len(root.Routes) + 1)
+	root.Routes = append(root.Routes[:at], append([]Route{mix}, root.Routes[at:]...)...)
 	return root
 }
 
@@ -120,6 +146,9 @@ func usedReceivers(rt Route, into map[string]bool) {
 
 func treeString(rt Route, ind string) string {
 	s := fmt.Sprintf("%s%v -> %s", ind, rt.Matchers, rt.Receiver)
+	if len(rt.Match) > 0 || len(rt.MatchRE) > 0 {
+		s = fmt.Sprintf("%s%v match%v match_re%v -> %s", ind, rt.Matchers, rt.Match, rt.MatchRE, rt.Receiver)
+	}
 	if rt.Continue {
 		s += " (continue)"
 	}
@@ -308,7 +337,10 @@ func c07Scenario(s *sc) {
 	}
 	// ---- a reload that config.Load accepts and the application fails to apply ----
 	conf2bad := Conf{Root: t2, Receivers: recvs(true), Comment: "tree 2, cannot be applied"}
-	if strings.HasSuffix(s.c.Kind, "bad-ca") {
+	if strings.HasSuffix(s.c.Kind, "bad-tracing") {
+		conf2bad.Receivers = recvs(false)
+		conf2bad.BadTracing = true
+	} else if strings.HasSuffix(s.c.Kind, "bad-ca") {
 		// some route must use the receiver whose HTTP client cannot be built
 		conf2bad.Root.Routes = append(append([]Route{}, t2.Routes...), Route{Receiver: "rbad", Matchers: []string{`never="matches"`}})
 	} else {
